@@ -13,7 +13,7 @@ PROP = {
         "lanes": [
             native("c20"),
             miri("c20", seeds_q=4, seeds_t=64, scale=1,
-                 args={"max-init": 4, "max-obs": 2, "rounds": {"quick": 2, "thorough": 6}},
+                 args={"max-init": 4, "max-obs": 2, "rounds": {"quick": 2, "thorough": 5}},
                  timeout={"quick": 600, "thorough": 3000}),
             san("tsan", "c20", scale=5),
         ],
